@@ -244,7 +244,7 @@ def t_long(shard, nshards, seed, ev, known, n4=6000, n6=1200):
 def plan(tier):
     q = tier == "quick"
     tasks = [
-        Task("lines", t_lines, shards=8 if q else 16, n=1500 if q else 150000),
+        Task("lines", t_lines, shards=8 if q else 16, n=1500 if q else 80000),
         Task("files", t_files, shards=2 if q else 16, n=150 if q else 5000),
         Task("long", t_long, shards=2 if q else 8, n4=6000 if q else 40000, n6=2000 if q else 8000),
     ]
